@@ -237,7 +237,9 @@ def worker(job):
         elif NAME2MOD.get(name) != module:
             R.violation("name-and-module-disagree", "backend_name %r but constraints go to module %r" % (name, module), **det)
         elif FIELD[name] is not None and rep["modulus"] != FIELD[name]:
-            R.violation("name-and-field-disagree", "backend_name %r but the module works modulo %s" % (name, rep["modulus"]), **det)
+            siblings = [n for n, m in REGISTRY if m in pre and n in IMPLIES and IMPLIES[n] == IMPLIES.get(name)]
+            mech = "two-derived-backends-of-one-base-preimported" if len(siblings) >= 2 and rep["modulus"] in [FIELD[n] for n in siblings] else "name-and-field-disagree"
+            R.violation(mech, "backend_name %r but the module works modulo %s (pre-imported: %s)" % (name, rep["modulus"], [m.split(".")[-1] for m in pre]), **det)
         if name in ("libsnark", "libsnarkgg") and rep.get("use_groth") is not (name == "libsnarkgg"):
             R.violation("name-and-proof-system-disagree", "backend_name %r but the libsnark backend's use_groth flag is %r" % (name, rep.get("use_groth")), **det)
         if rep["interface_missing"]:
